@@ -27,6 +27,21 @@ J_newreq(e) ==
          ELSE "ok"
 
 ----------------------------------------------------------------------------
+(* C07 (static part): the response length a request reports - the length the clients' read loops wait *)
+(* for - equals the length of the specified normal reply.  The known wrong constants (KNOWN_FINDINGS   *)
+(* C07-F1..F5, pinned by the repository's tests) are accepted only with their exact formulas.          *)
+J_explen(e) ==
+    LET r == ReqOfArgs(e) IN
+    IF r.fc = 17 THEN (IF e.explen = (IF e.framing = "tcp" THEN 8 ELSE 2) THEN "known:C07-F4" ELSE "expected-response-length-of-fc17-changed")
+    ELSE LET n == RespLenFor(e.framing, r) IN
+         IF e.explen = n THEN "ok"
+         ELSE IF e.framing = "rtu" /\ r.fc \in {1, 2, 3, 4} /\ e.explen = n - 1 THEN "known:C07-F1"
+         ELSE IF e.framing = "tcp" /\ r.fc = 5 /\ e.explen = 11 THEN "known:C07-F2"
+         ELSE IF e.framing = "rtu" /\ r.fc \in {5, 6} /\ e.explen = 6 THEN "known:C07-F3"
+         ELSE IF r.fc = 23 /\ e.explen = (IF e.framing = "tcp" THEN 17 + 2 * r.qty ELSE 6 + 2 * r.qty) THEN "known:C07-F5"
+         ELSE "expected-response-length-differs-from-the-specified-reply-length"
+
+----------------------------------------------------------------------------
 (* C02 *)
 IsDispResp(entry) == entry \in {"ParseTCPResponse", "ParseRTUResponse", "ParseRTUResponseWithCRC"}
 
@@ -186,6 +201,7 @@ J_coil(e) ==
 Judge(e) ==
     CASE e.op = "newreq"            -> J_newreq(e)
       [] e.op = "newreq_rejected"   -> "ok"
+      [] e.op = "explen"            -> J_explen(e)
       [] e.op = "parseresp"         -> J_parseresp(e)
       [] e.op = "parsereq"          -> J_parsereq(e)
       [] e.op = "parsereq_errrange" -> J_errrange(e)
